@@ -15,7 +15,7 @@ jsonschema.validate(m,json.load(open('/root/.vp/MANIFEST.schema.json')))
 for c in m['checks']:
     e=json.load(open(c['evidence_file']))
     jsonschema.validate(e,sch)
-    assert e['coverage']['obligations']==e['coverage']['discharged'], c['property_id']
+    assert e["coverage"]["obligations"]==e["coverage"]["discharged"], c["property_id"]
 print("manifest and evidence valid")
 PY
 [ $? -ne 0 ] && fail=1
